@@ -1,4 +1,5 @@
 //! tvmon — runtime monitors for tevec (see /verif/DESIGN.md).
+pub mod backends;
 pub mod ctx;
 pub mod wl;
 pub mod model;
